@@ -30,6 +30,8 @@ def run(tier, seed):
         for nh in ((1, 2, 3) if thorough else (2,)):
             for ans in (False, True):
                 cases.append(Case('jf_complaints_o%d_h%d_a%d' % (order, nh, int(ans)), 'crypto', 'zzC08_jf_complaints', [order, nh, ans]))
+    for mask in ((0, 1, 2, 4, 3, 7) if not thorough else range(8)):
+        cases.append(Case('jf_answer_first_%d' % mask, 'crypto', 'zzC08_jf_answer_first', [mask]))
     return run_check('C08', cases, tier, seed, setup=dkgcommon.SETUP,
         functions=['(*feldmanVSSstate).receiveShare/receiveVerifVector/End', '(*feldmanVSSQualState).receiveShare/receiveVerifVector/receiveComplaint/receiveComplaintAnswer/setSharesTimeout/setComplaintsTimeout/buildAndBroadcastComplaint/End', 'C:Fr_star_read_bytes'],
         bounds={'plain Feldman VSS': 'n=3, t=1, non-dealer participant; every vector kind (9) x share kind (10) x both delivery orders, duplicates of either message',
